@@ -1,8 +1,13 @@
 SPECIFICATION Spec
 CONSTANTS
+  MinNodes = 0
   MaxNodes = 3
   Base = 256
   MaxChain = 1
-INVARIANTS BoundedCalls ExactCalls EachNodeOnceInOrder InOrder CursorRoundTrip PastEndIsTerminal
-PROPERTIES Terminates
+  IdxSpace = 8
+  PastEndRule = "ge"
+  CompletionOrder = "rewrite-publish"
+  Withdrawals = TRUE
 CHECK_DEADLOCK FALSE
+INVARIANTS BoundedCalls ExactCalls EachNodeOnceInOrder InOrder CursorRoundTrip PastEndIsTerminal NoCrash DeliveredComposite ResumeSafe
+PROPERTIES Terminates
